@@ -118,7 +118,7 @@ def eval_spaces(prop, tier):
                 sig(s + ";files=6", 8)
             sig("KBPkb;files=4;ep=none", 16)
             sig("KBPPkb;files=3;ep=none", 16)
-            sig("KBPkbp;files=3", 16)
+            sig("KBPkbp;files=3;ep=none;stm=w", 16)   # material is colour-symmetric: black-to-move positions are the mirrors
             sig("KQkrp;files=4;ep=none", 16)
             sig("KNNkp;files=4;ep=none", 16)
             sig("Ke1Rh1Pke8ra8p;files=8;ep=none", 8)
